@@ -172,6 +172,11 @@ static void add_ref_common(World &w, const Step &st, bool obj) {
     MVal *croot = mv_root(c);
     MVal *t = w.pick(st.A(2), st.A(3), [&](MVal *m) { return mv_root(m) != croot; });
     if (!t) { w.noop(st, "no target in another tree"); return; }
+    if (((uint64_t)st.A(3) / 13) % 4 == 0) {
+        // a quarter of the references point at the widest container of that tree
+        std::vector<MVal *> all; mv_collect(mv_root(t), all);
+        for (MVal *m : all) if (m->refkind == R_NONE && m->kids.size() > t->kids.size()) t = m;
+    }
     std::string key = st.S(0).c_str();
     const char *keyarg = key.c_str();
     if (obj && t->keystate == K_KNOWN && t->c && t->c->string && ((uint64_t)st.A(3) / 7919) % 3 == 0) {
